@@ -44,13 +44,15 @@ ASSUMPTIONS.update({
     "has": "Bindings::has inspects the bindings only", "set_existing": "Bindings::set_existing (under contract elsewhere): updates bindings only; requires the variable to be bound in this frame (else unreachable!())",
     "is_underscore": "SymbolName::is_underscore", "vsym_eq": "SymbolName == SymbolName",
     "TypeNameLit": "-", "vunreachable": "unreachable!(..): a reachable call is a violation (precondition `false`)",
-    "new_int": "Value::new(Value_::Int(i)) builds the Int value", "SyntaxId": "opaque stand-in", "get_var": "get_var (eval.rs) looks the symbol up in the frame's bindings AND in the namespace: its result says nothing about b_has",
+    "new_int": "Value::new(Value_::Int(i)) builds the Int value", "bool_val": "-", "val_eq": "-",
+    "vq_value_eq": "`==` on Value: derived PartialEq through Rc<Value_> (pointer equality or Value_::eq; unit valeq proves Value_::eq is structural equality)", "SyntaxId": "opaque stand-in", "get_var": "get_var (eval.rs) looks the symbol up in the frame's bindings AND in the namespace: its result says nothing about b_has",
 })
 LEMMAS = {}
 UNVERIFIED = {
     "C07": ["eval_expr's dispatch (which step function runs for which expression state, and that the state handed back to restore_stack_frame re-runs the same step)",
             "continuation entries a step pushed to exprs_to_eval before failing stay there (If/Match/While arms of eval_expr): harmless for a repeated :resume, not covered",
             "eval_let, eval_struct_value, eval_match_cases, the list/tuple/dict literal arms of eval_expr, eval_namespace_access, eval_string_concat: not under contract (covered only by restore.bounded[resume_corpus])"],
+    "C13": ["that `==` on Value is Value_::eq (derived PartialEq through Rc) — Value_::eq itself is under contract in unit valeq"],
     "C02": ["the operand-count preconditions (eval_expr evaluates and pushes the operands before the step) are assumed of the caller"],
 }
 
@@ -75,6 +77,9 @@ WITNESSES = [
     _resume("`&&` on a non-Bool", ["True && 1"], r"steps\.eval_boolean_binop\."),
     _resume("assignment to an unbound variable", ["nosuchvar = 1"], r"steps\.eval_assign\."),
     _resume("field access on a non-struct", ["1.field"], r"steps\.eval_dot_access\."),
+    {"match": r"steps\.eval_equality_binop\.", "kind": "run", "props": ["C13"],
+     "input": "let a = Dict[\"a\" => Ok(1), \"b\" => Err(\"x\")]\nlet b = Dict[\"b\" => Err(\"x\"), \"a\" => Ok(1)]\nprintln(string_repr(a == b))\nprintln(string_repr(a != b))\nprintln(string_repr([a] == [b]))\nprintln(string_repr(([], 1) == ([], 1)))\nprintln(string_repr([1, 2] == [1, 2]))\nprintln(string_repr(Some([]) == Some([1])))\nprintln(string_repr(1 == 1.0))",
+     "expect": {"stdout": "True\nFalse\nTrue\nTrue\nTrue\nFalse\nFalse"}, "note": "structurally equal containers built separately (different literal order, different recorded element types) are equal"},
     {"match": r"steps\.eval_assign\.safety", "kind": "run", "props": ["C02"], "input": "println = 1", "expect": {}, "note": "assigning to a name that is only bound in the namespace must raise an error, not panic"},
 ]
 
@@ -93,10 +98,17 @@ impl Value {
     #[verifier::external_body]
     pub fn unit() -> (r: Self) { unimplemented!() }
     #[verifier::external_body]
-    pub fn bool(b: bool) -> (r: Self) { unimplemented!() }
+    pub fn bool(b: bool) -> (r: Self) ensures r == bool_val(b) { unimplemented!() }
     #[verifier::external_body]
     pub fn new_int(i: i64) -> (r: Self) ensures *r.0 == Value_::Int(i) { unimplemented!() }
 }
+/// the Garden Bool value for a Rust bool (ghost)
+pub uninterp spec fn bool_val(b: bool) -> Value;
+/// `==` on Value (derived PartialEq through Rc: pointer equality or Value_::eq, which unit valeq proves to be
+/// the structural equality veq)
+pub uninterp spec fn val_eq(a: Value, b: Value) -> bool;
+#[verifier::external_body]
+pub fn vq_value_eq(a: &Value, b: &Value) -> (r: bool) ensures r == val_eq(*a, *b) { unimplemented!() }
 pub struct TypeNameLit { pub text: String }
 #[verifier::external_body]
 pub fn format_type_error<T>(expected: &T, value: &Value, env: &Env) -> (r: ErrorMessage) { unimplemented!() }
@@ -235,6 +247,17 @@ def build(tier):
         loops={1: dict(invariant=[("frame", "env.stack.0@.len() >= 1, others_same(*old(env), *env)"),
                                   ("pushed_only_when_found", "!found ==> vals(*env) == vals(*old(env)).drop_last()")],
                        decreases="fields@.len() - __i1")}))
+    EQ_RULES = BASE_RULES + [UNREACH,
+        rw.simple("R10", r"\blhs_value == rhs_value\b", "vq_value_eq(&lhs_value, &rhs_value)"),
+        rw.simple("R10", r"\blhs_value != rhs_value\b", "!vq_value_eq(&lhs_value, &rhs_value)")]
+    L, R = "vals(*old(env))[vals(*old(env)).len() - 2]", "vals(*old(env)).last()"
+    u.add_fn(EV, "eval_equality_binop", rules=EQ_RULES, contract=Contract(
+        requires=[("stack_nonempty", "old(env).stack.0@.len() >= 1"), ("operands_on_value_stack", "vals(*old(env)).len() >= 2"),
+                  ("is_equality_operator", "op.kind is Equal || op.kind is NotEqual")],
+        ensures=[("equal_is_value_equality", "expr_value_is_used && op.kind is Equal ==> vals(*final(env)) =~= vals(*old(env)).drop_last().drop_last().push(bool_val(val_eq(%s, %s)))" % (L, R), {"C13"}),
+                 ("not_equal_is_its_negation", "expr_value_is_used && op.kind is NotEqual ==> vals(*final(env)) =~= vals(*old(env)).drop_last().drop_last().push(bool_val(!val_eq(%s, %s)))" % (L, R), {"C13"}),
+                 ("other_frames_untouched", "others_same(*old(env), *final(env))", {"C07"})],
+        props={"C13", "C02"}))
     u.add_canary_proof()
     u.raw(common.FOOTER)
     return u
